@@ -31,10 +31,10 @@ func main() {
 		"reference server R5 opens every frame with an independent MTProto 1.0 implementation; test requests are harness-local constructors registered with the decoder",
 		"memory-model effects are outside a cooperative scheduler")
 	D, E := 2, 1
-	budget := 100 * time.Second
+	budget := 5 * time.Minute
 	if run.Thorough() {
 		D, E = 3, 1 // small scenarios get E+1 (see Bounds)
-		budget = 15 * time.Minute
+		budget = 45 * time.Minute
 	}
 	run.Set("delay_bound", D)
 	run.Set("server_deviation_bound", E)
